@@ -79,6 +79,9 @@ def main():
             r2 = subprocess.run([os.path.join(HERE, "bin", "check"), prop, "--replay", viol[0][1]], capture_output=True, text=True)
             rep += "; clean on /repo" if r2.returncode == 0 else f"; ALSO FAILS ON /repo rc={r2.returncode}"
         print(f"{name:38s} {prop} {tier:8s} {status:8s} {oracle[:1]} {rep}", flush=True)
+        if not in_repo or True:
+            meta.setdefault("checks", {})[tier] = {"cmd": f"bin/check {prop} --tier {tier} (VERIF_REPO=scratch copy with patch.diff applied)", "status": status, "oracle": oracle[:1], "replay": rep}
+            json.dump(meta, open(os.path.join(d, "meta.json"), "w"), indent=1)
         summary.append((name, status))
     missed = [n for n, s in summary if s != "CAUGHT"]
     print(f"{len(summary) - len(missed)}/{len(summary)} caught; not caught: {missed}")
